@@ -234,8 +234,8 @@ func runC14(r *simcore.Run) {
 		rd := rounds[j]
 		elig := c01Eligible(rd.health.Health, []string{"passing"}, false)
 		// what every eligible (instance, routing tag) denotes
-		must := map[string]bool{}  // well-formed registrations: the command has to be there
-		may := map[string]bool{}   // adversarial but meaningful registrations: exact command or nothing
+		must := map[string]bool{} // well-formed registrations: the command has to be there
+		may := map[string]bool{}  // adversarial but meaningful registrations: exact command or nothing
 		for _, svcs := range rd.catalogs {
 			for _, s := range svcs {
 				if !elig[[3]string{s.Node, s.ServiceID, s.ServiceName}] {
